@@ -52,7 +52,13 @@ Clauses(o, n, e, DevErr) == <<
     <<"FaultReplyCode",  (e.k = "reply" /\ IsLinkFault(o.fault)) => (e.hascode /\ e.code = DevErr)>>,
     <<"FaultStopsManager", (e.k = "reply" /\ IsLinkFault(o.fault)) => ~e.shutdown>>,
     <<"ReconnectFailReplyCode", (e.k = "reply" /\ o.openfail /\ o.owed) => (e.hascode /\ e.code = DevErr)>>,
-    <<"ReconnectFailStopsManager", (e.k = "reply" /\ o.openfail /\ o.owed) => ~e.shutdown>> >>
+    <<"ReconnectFailStopsManager", (e.k = "reply" /\ o.openfail /\ o.owed) => ~e.shutdown>>,
+    \* whatever a request finds when it starts the repair (a link object left behind by an earlier failed
+    \* attempt included), it is answered with a code and the manager goes on
+    \* (a repair that re-opened the link and then found the device in a state it must not serve from stops the
+    \* manager by design - C09 - so only requests that never got as far as re-opening are judged here)
+    <<"RepairRequestUnanswered", (e.k = "reply" /\ o.owed /\ o.phase \in {"idle", "closed"} /\ ~o.openfail) => e.hascode>>,
+    <<"RepairRequestStopsManager", (e.k = "reply" /\ o.owed /\ o.phase \in {"idle", "closed"} /\ ~o.openfail) => ~e.shutdown>> >>
 
 RECURSIVE FirstFailL(_)
 FirstFailL(cs) == IF cs = <<>> THEN ""
